@@ -1,217 +1,336 @@
-(* Model of Vector / Matrix / SymMatrix (OpenMEEGMaths/include/{vector,matrix,symmatrix}.h and .cpp):
-   each method is what the source does — the netlib reference semantics of the BLAS routine it calls,
-   with the transposition flags, dimensions and leading dimensions it passes, or its hand-written loop.
-   None = om_assert fires (std::invalid_argument). *)
+(* Model of Vector / Matrix / SymMatrix (OpenMEEGMaths/include/{vector,matrix,symmatrix}.h and src/*.cpp):
+   each method is what the source does -- the reference semantics of the BLAS routine it calls, with the
+   transposition flags, dimensions and leading dimensions it passes, or its hand-written loop.
+
+   Buffers are lists; every BLAS read is CHECKED ([rd] = nth_error): a read outside a buffer, a write outside
+   the result buffer, or a result cell that no routine wrote makes the whole call [None], which the methods
+   report as [Undef] (indeterminate data / undefined behaviour).
+     Ok v   : returns normally with value v
+     Throw  : om_assert fires (std::invalid_argument)
+     Undef  : out-of-bounds access or uninitialised result
+   No proofs here (the file must run even when a proof breaks). *)
 From OM Require Import Base.Lists Maths.Dense.
 Local Open Scope Z_scope.
+
+Inductive res (A : Type) : Type := Ok (a : A) | Throw | Undef.
+Arguments Ok {A}. Arguments Throw {A}. Arguments Undef {A}.
 
 (* column-major table of f over nl x nc *)
 Definition tabulate (nl nc : nat) (f : nat -> nat -> Z) : list Z :=
   map (fun p => f (p mod nl)%nat (p / nl)%nat) (seq 0 (nl * nc)).
 Definition tab1 (n : nat) (f : nat -> Z) : list Z := map f (seq 0 n).
 Definition mk (nl nc : nat) (f : nat -> nat -> Z) : dense := {| dnl := nl; dnc := nc; dd := tabulate nl nc f |}.
+Definition dn (nl nc : nat) (l : list Z) : dense := {| dnl := nl; dnc := nc; dd := l |}.
+(* packed upper table: slot i+j(j+1)/2 holds f i j (i<=j) *)
+Definition packed_pairs (n : nat) : list (nat * nat) := flat_map (fun j => map (fun i => (i, j)) (seq 0 (j + 1))) (seq 0 n).
+Definition mks (n : nat) (f : nat -> nat -> Z) : sym := {| sn := n; sd := map (fun p => f (fst p) (snd p)) (packed_pairs n) |}.
 
-(* ---- BLAS reference semantics (column-major, unit increments unless stated) ---- *)
-(* C(m x n, ldc) = op(A) op(B), A read with lda, B with ldb; returned as the ldc x n buffer *)
-Definition gemm (ta tb : bool) (m n k : nat) (a : list Z) (lda : nat) (b : list Z) (ldb ldc : nat) : list Z :=
-  tabulate ldc n (fun i j =>
-    if (i <? m)%nat then
-      sumn k (fun l => (if ta then nth (l + lda * i) a 0 else nth (i + lda * l) a 0) *
-                       (if tb then nth (j + ldb * l) b 0 else nth (l + ldb * j) b 0))
-    else 0).
-(* y = op(A) x, A is m x n with lda *)
-Definition gemv (ta : bool) (m n : nat) (a : list Z) (lda : nat) (x : list Z) : list Z :=
-  if ta then tab1 n (fun j => sumn m (fun i => nth (i + lda * j) a 0 * nth i x 0))
-  else tab1 m (fun i => sumn n (fun j => nth (i + lda * j) a 0 * nth j x 0)).
+(* ---- checked evaluation ---- *)
+Definition rd (l : list Z) (k : nat) : option Z := nth_error l k.
+Definition omul (a b : option Z) : option Z := match a, b with Some x, Some y => Some (x * y) | _, _ => None end.
+Definition oadd (a b : option Z) : option Z := match a, b with Some x, Some y => Some (x + y) | _, _ => None end.
+Fixpoint osum (n : nat) (f : nat -> option Z) : option Z :=
+  match n with O => Some 0 | S n' => oadd (osum n' f) (f n') end.
+Fixpoint oseq (l : list (option Z)) : option (list Z) :=
+  match l with
+  | [] => Some []
+  | x :: t => match x, oseq t with Some a, Some r => Some (a :: r) | _, _ => None end
+  end.
+Definition otab (n : nat) (f : nat -> option Z) : option (list Z) := oseq (map f (seq 0 n)).
+Definition lift {A B} (o : option A) (k : A -> B) : res B := match o with Some a => Ok (k a) | None => Undef end.
+
+(* ---- BLAS reference semantics (column-major cblas interface, alpha=1, beta=0, unit increments unless stated).
+   The result buffer is the freshly allocated one the method passes (csz cells, content indeterminate): every
+   cell must be written, no write may fall outside.  Parameter errors (leading dimension smaller than the row
+   count, as tested by the cblas entry points) make the routine return without writing. ---- *)
+Definition fresh_unwritten (csz : nat) : option (list Z) := if (csz =? 0)%nat then Some [] else None.
+
+Definition gemm (ta tb : bool) (m n k : nat) (a : list Z) (lda : nat) (b : list Z) (ldb ldc csz : nat) : option (list Z) :=
+  if ((ldc <? m) || (lda <? (if ta then k else m)) || (ldb <? (if tb then n else k)))%nat then fresh_unwritten csz
+  else if ((0 <? m) && (0 <? n) && (csz <=? (m - 1) + ldc * (n - 1)))%nat then None
+  else otab csz (fun p => let i := (p mod ldc)%nat in let j := (p / ldc)%nat in
+         if ((i <? m) && (j <? n))%nat then
+           osum k (fun l => omul (rd a (if ta then l + lda * i else i + lda * l)%nat)
+                                 (rd b (if tb then j + ldb * l else l + ldb * j)%nat))
+         else None).
+
+(* y = op(A) x ; A is m x n with lda.  DGEMV returns immediately (y untouched) when m=0 or n=0, and on lda<max(1,m).
+   yinit = Some y0 : y holds y0 on entry; None : y is fresh (indeterminate) *)
+Definition gemv (ta : bool) (m n : nat) (a : list Z) (lda : nat) (x : list Z) (ysz : nat) (yinit : option (list Z)) : option (list Z) :=
+  if ((lda <? Nat.max 1 m) || (m =? 0) || (n =? 0))%nat then
+    match yinit with Some y0 => Some y0 | None => fresh_unwritten ysz end
+  else if negb ((if ta then n else m) =? ysz)%nat then None
+  else if ta then otab ysz (fun j => osum m (fun i => omul (rd a (i + lda * j)%nat) (rd x i)))
+       else otab ysz (fun i => osum n (fun j => omul (rd a (i + lda * j)%nat) (rd x j))).
+
 (* upper triangle of a full buffer seen as a symmetric matrix *)
-Definition symU (a : list Z) (lda : nat) (i j : nat) : Z :=
-  if (i <=? j)%nat then nth (i + lda * j) a 0 else nth (j + lda * i) a 0.
-(* DSYMM: side Left: C = A_sym(m x m) * B(m x n); side Right: C = B(m x n) * A_sym(n x n) *)
-Definition symm (left : bool) (m n : nat) (a : list Z) (lda : nat) (b : list Z) (ldb ldc : nat) : list Z :=
-  tabulate ldc n (fun i j =>
-    if (i <? m)%nat then
-      if left then sumn m (fun l => symU a lda i l * nth (l + ldb * j) b 0)
-      else sumn n (fun l => nth (i + ldb * l) b 0 * symU a lda l j)
-    else 0).
-(* DSPMV upper packed *)
-Definition spmv (n : nat) (ap x : list Z) : list Z :=
-  tab1 n (fun i => sumn n (fun j => nth (pidx i j) ap 0 * nth j x 0)).
-(* dcopy n x(off,inc) -> contiguous *)
-Definition gather (n off inc : nat) (x : list Z) : list Z := tab1 n (fun k => nth (off + inc * k) x 0).
+Definition symU (a : list Z) (lda : nat) (i j : nat) : option Z :=
+  if (i <=? j)%nat then rd a (i + lda * j)%nat else rd a (j + lda * i)%nat.
+(* DSYMM Upper; Left: C = A_sym(m x m) B(m x n); Right: C = B(m x n) A_sym(n x n) *)
+Definition symm (left : bool) (m n : nat) (a : list Z) (lda : nat) (b : list Z) (ldb ldc csz : nat) : option (list Z) :=
+  if ((ldc <? m) || (lda <? (if left then m else n)) || (ldb <? m))%nat then fresh_unwritten csz
+  else if ((0 <? m) && (0 <? n) && (csz <=? (m - 1) + ldc * (n - 1)))%nat then None
+  else otab csz (fun p => let i := (p mod ldc)%nat in let j := (p / ldc)%nat in
+         if ((i <? m) && (j <? n))%nat then
+           if left then osum m (fun l => omul (symU a lda i l) (rd b (l + ldb * j)%nat))
+           else osum n (fun l => omul (rd b (i + ldb * l)%nat) (symU a lda l j))
+         else None).
+(* DSPMV upper packed, y fresh of n cells *)
+Definition spmv (n : nat) (ap x : list Z) : option (list Z) :=
+  otab n (fun i => osum n (fun j => omul (rd ap (pidx i j)) (rd x j))).
+(* DGER on a zeroed m x n buffer with lda = m *)
+Definition ger (m n : nat) (x y : list Z) : option (list Z) :=
+  otab (m * n) (fun p => oadd (Some 0) (omul (rd x (p mod m)%nat) (rd y (p / m)%nat))).
+(* daxpy n alpha x 1 y 1 *)
+Definition axpy (n : nat) (al : Z) (x y : list Z) : option (list Z) :=
+  if (n <=? length y)%nat then
+    otab (length y) (fun k => if (k <? n)%nat then oadd (omul (Some al) (rd x k)) (rd y k) else rd y k)
+  else None.
+(* dcopy n x(off,inc) -> fresh contiguous buffer of n cells *)
+Definition gather (n off inc : nat) (x : list Z) : option (list Z) := otab n (fun k => rd x (off + inc * k)%nat).
 (* dcopy n contiguous v -> y(off,inc) *)
-Definition scatter (n off inc : nat) (v y : list Z) : list Z :=
-  fold_left (fun b k => upd b (off + inc * k) (nth k v 0)) (seq 0 n) y.
-Definition axpy (al : Z) (x y : list Z) : list Z := tab1 (length y) (fun k => al * nth k x 0 + nth k y 0).
-Definition dotp (n : nat) (x y : list Z) : Z := sumn n (fun k => nth k x 0 * nth k y 0).
+Definition scatter (n off inc : nat) (v y : list Z) : option (list Z) :=
+  fold_left (fun ob k => match ob, rd v k with
+                         | Some b, Some e => if (off + inc * k <? length b)%nat then Some (upd b (off + inc * k) e) else None
+                         | _, _ => None end) (seq 0 n) (Some y).
+Definition dotp (n : nat) (x y : list Z) : option Z := osum n (fun k => omul (rd x k) (rd y k)).
+(* hand loops over data()[k], k < sz *)
+Definition map_buf (sz : nat) (x : list Z) (f : Z -> Z) : option (list Z) :=
+  otab sz (fun k => match rd x k with Some e => Some (f e) | None => None end).
 
 (* ---- Vector ---- *)
 (* Index arguments are C++ 'unsigned' values, carried as Z in [0,2^32): they are only converted to nat
    after the guard has shown them to be smaller than a dimension. *)
 Definition zlen {A} (l : list A) : Z := Z.of_nat (length l).
 Definition inb (i : Z) (n : nat) : bool := (0 <=? i) && (i <? Z.of_nat n).
-Definition v_get (v : list Z) (i : Z) : option Z := if inb i (length v) then Some (nth (Z.to_nat i) v 0) else None.
-Definition v_add (u v : list Z) : option (list Z) := if (length u =? length v)%nat then Some (axpy 1 v u) else None.
-Definition v_sub (u v : list Z) : option (list Z) := if (length u =? length v)%nat then Some (axpy (-1) v u) else None.
-Definition v_neg (u : list Z) : list Z := tab1 (length u) (fun k => - nth k u 0).
-Definition v_scale (u : list Z) (x : Z) : list Z := tab1 (length u) (fun k => x * nth k u 0).
-Definition v_addc (u : list Z) (x : Z) : list Z := tab1 (length u) (fun k => nth k u 0 + x).
-Definition v_dot (u v : list Z) : option Z := if (length u =? length v)%nat then Some (dotp (length u) u v) else None.
-Definition v_kmult (u v : list Z) : option (list Z) :=
-  if (length u =? length v)%nat then Some (tab1 (length u) (fun k => nth k v 0 * nth k u 0)) else None.
-(* outer_product: DGER(sz,sz,1,x=this,y=v,A,sz): A(i,j) += x_i*y_j on a zeroed A *)
-Definition v_outer (u v : list Z) : option dense :=
-  if (length u =? length v)%nat then Some (mk (length u) (length v) (fun i j => nth i u 0 * nth j v 0)) else None.
-Definition v_sum (u : list Z) : Z := zsum u.
-Definition v_norm2 (u : list Z) : Z := dotp (length u) u u.
+Definition v_get (v : list Z) (i : Z) : res Z := if inb i (length v) then lift (rd v (Z.to_nat i)) id else Throw.
+Definition v_put (v : list Z) (i : Z) (x : Z) : res (list Z) := if inb i (length v) then Ok (upd v (Z.to_nat i) x) else Throw.
+Definition v_add (u v : list Z) : res (list Z) := if (length u =? length v)%nat then lift (axpy (length u) 1 v u) id else Throw.
+Definition v_sub (u v : list Z) : res (list Z) := if (length u =? length v)%nat then lift (axpy (length u) (-1) v u) id else Throw.
+Definition v_neg (u : list Z) : res (list Z) := lift (map_buf (length u) u Z.opp) id.
+Definition v_scale (u : list Z) (x : Z) : res (list Z) := lift (map_buf (length u) u (fun e => x * e)) id.
+Definition v_addc (u : list Z) (x : Z) : res (list Z) := lift (map_buf (length u) u (fun e => e + x)) id.
+Definition v_dot (u v : list Z) : res Z := if (length u =? length v)%nat then lift (dotp (length u) u v) id else Throw.
+Definition v_kmult (u v : list Z) : res (list Z) :=
+  if (length u =? length v)%nat then lift (otab (length u) (fun k => omul (rd v k) (rd u k))) id else Throw.
+(* outer_product: A.set(0); DGER(sz,sz,1,x=this,y=v,A,sz) *)
+Definition v_outer (u v : list Z) : res dense :=
+  if (length u =? length v)%nat then lift (ger (length u) (length v) u v) (dn (length u) (length v)) else Throw.
+Definition v_sum (u : list Z) : res Z := lift (osum (length u) (fun k => oadd (Some 0) (rd u k))) id.
+Definition v_norm2 (u : list Z) : res Z := lift (dotp (length u) u u) id.
 (* subvect: om_assert(istart+isize<=nlin()) is evaluated in 32-bit unsigned arithmetic, but every element
    read this(istart+i) is asserted too, and i runs through every value from 0: whenever the exact sum
-   exceeds nlin() some read is out of range and throws.  Outcome = exact guard. *)
-Definition v_subvect (u : list Z) (istart isize : Z) : option (list Z) :=
+   exceeds nlin() some read is out of range and throws (arithmetic lemma c18_wrap_caught_by_element_guard).
+   Outcome = exact guard. *)
+Definition v_subvect (u : list Z) (istart isize : Z) : res (list Z) :=
   if (0 <=? istart) && (0 <=? isize) && (istart + isize <=? zlen u)
-  then Some (tab1 (Z.to_nat isize) (fun i => nth (Z.to_nat istart + i) u 0)) else None.
-Definition v_set (u : list Z) (x : Z) : option (list Z) := if (0 <? length u)%nat then Some (tab1 (length u) (fun _ => x)) else None.
+  then lift (otab (Z.to_nat isize) (fun i => rd u (Z.to_nat istart + i)%nat)) id else Throw.
+Definition v_set (u : list Z) (x : Z) : res (list Z) := if (0 <? length u)%nat then Ok (tab1 (length u) (fun _ => x)) else Throw.
 
 (* ---- Matrix ---- *)
-Definition m_get (M : dense) (i j : Z) : option Z :=
-  if inb i (dnl M) && inb j (dnc M) then Some (dget M (Z.to_nat i) (Z.to_nat j)) else None.
-Definition m_put (M : dense) (i j : Z) (v : Z) : option dense :=
+Definition m_get (M : dense) (i j : Z) : res Z :=
+  if inb i (dnl M) && inb j (dnc M) then lift (rd (dd M) (didx M (Z.to_nat i) (Z.to_nat j))) id else Throw.
+Definition m_put (M : dense) (i j : Z) (v : Z) : res dense :=
   if inb i (dnl M) && inb j (dnc M)
-  then Some {| dnl := dnl M; dnc := dnc M; dd := upd (dd M) (didx M (Z.to_nat i) (Z.to_nat j)) v |} else None.
+  then (if (didx M (Z.to_nat i) (Z.to_nat j) <? length (dd M))%nat
+        then Ok (dn (dnl M) (dnc M) (upd (dd M) (didx M (Z.to_nat i) (Z.to_nat j)) v)) else Undef)
+  else Throw.
 
-(* submat (guard as repaired: no 32-bit wrap): dcopy(isize, data+istart+(jstart+j)*nlin, 1, res+j*isize, 1) per column *)
-Definition m_submat (M : dense) (istart isize jstart jsize : Z) : option dense :=
+(* submat (guard as repaired, no 32-bit wrap: istart<=nlin && isize<=nlin-istart ...):
+   dcopy(isize, data+istart+(jstart+j)*nlin, 1, res+j*isize, 1) per column *)
+Definition m_submat (M : dense) (istart isize jstart jsize : Z) : res dense :=
   if (0 <=? istart) && (0 <=? isize) && (0 <=? jstart) && (0 <=? jsize)
      && (istart + isize <=? Z.of_nat (dnl M)) && (jstart + jsize <=? Z.of_nat (dnc M))
-  then Some (mk (Z.to_nat isize) (Z.to_nat jsize)
-               (fun i j => nth (Z.to_nat istart + i + (Z.to_nat jstart + j) * dnl M) (dd M) 0)) else None.
-(* insertmat: guard + asserted element writes (same remark as subvect) *)
-Definition m_insertmat (M : dense) (istart jstart : Z) (B : dense) : option dense :=
+  then let ni := Z.to_nat isize in let nj := Z.to_nat jsize in
+       lift (otab (ni * nj) (fun p => rd (dd M) (Z.to_nat istart + p mod ni + (Z.to_nat jstart + p / ni) * dnl M)%nat)) (dn ni nj)
+  else Throw.
+(* the pinned guard: the sums wrap modulo 2^32; reads are not checked individually (dcopy) *)
+Definition two32 : Z := 4294967296.
+Definition rdZ (l : list Z) (z : Z) : option Z := if (0 <=? z) && (z <? zlen l) then nth_error l (Z.to_nat z) else None.
+Definition m_submat_pinned (M : dense) (istart isize jstart jsize : Z) : res dense :=
+  if ((istart + isize) mod two32 <=? Z.of_nat (dnl M)) && ((jstart + jsize) mod two32 <=? Z.of_nat (dnc M))
+  then if (isize * jsize <=? 1000000) then
+       let ni := Z.to_nat isize in let nj := Z.to_nat jsize in
+       lift (otab (ni * nj) (fun p => rdZ (dd M) (istart + Z.of_nat (p mod ni) + (jstart + Z.of_nat (p / ni)) * Z.of_nat (dnl M)))) (dn ni nj)
+       else Undef
+  else Throw.
+(* insertmat (guard as repaired): asserted element writes, column by column: element p = i + B.nlin*j of B goes to (istart+i, jstart+j) *)
+Definition m_insertmat (M : dense) (istart jstart : Z) (B : dense) : res dense :=
   if (0 <=? istart) && (0 <=? jstart)
      && (istart + Z.of_nat (dnl B) <=? Z.of_nat (dnl M)) && (jstart + Z.of_nat (dnc B) <=? Z.of_nat (dnc M))
-  then Some {| dnl := dnl M; dnc := dnc M;
-               dd := fold_left (fun b p => upd b (didx M (Z.to_nat istart + fst p) (Z.to_nat jstart + snd p)) (dget B (fst p) (snd p)))
-                       (flat_map (fun j => map (fun i => (i, j)) (seq 0 (dnl B))) (seq 0 (dnc B))) (dd M) |}
-  else None.
-Definition m_getcol (M : dense) (j : Z) : option (list Z) :=
-  if inb j (dnc M) then Some (gather (dnl M) (dnl M * Z.to_nat j) 1 (dd M)) else None.
-Definition m_setcol (M : dense) (j : Z) (v : list Z) : option dense :=
+  then lift (fold_left (fun ob p => match ob, rd (dd B) p with
+                                    | Some b, Some e => let s := didx M (Z.to_nat istart + p mod dnl B) (Z.to_nat jstart + p / dnl B) in
+                                                        if (s <? length b)%nat then Some (upd b s e) else None
+                                    | _, _ => None end)
+                       (seq 0 (dnl B * dnc B)) (Some (dd M)))
+            (dn (dnl M) (dnc M))
+  else Throw.
+Definition m_getcol (M : dense) (j : Z) : res (list Z) :=
+  if inb j (dnc M) then lift (gather (dnl M) (dnl M * Z.to_nat j) 1 (dd M)) id else Throw.
+Definition m_setcol (M : dense) (j : Z) (v : list Z) : res dense :=
   if (length v =? dnl M)%nat && inb j (dnc M)
-  then Some {| dnl := dnl M; dnc := dnc M; dd := scatter (dnl M) (dnl M * Z.to_nat j) 1 v (dd M) |} else None.
-Definition m_getlin (M : dense) (i : Z) : option (list Z) :=
-  if inb i (dnl M) then Some (gather (dnc M) (Z.to_nat i) (dnl M) (dd M)) else None.
-Definition m_setlin (M : dense) (i : Z) (v : list Z) : option dense :=
+  then lift (scatter (dnl M) (dnl M * Z.to_nat j) 1 v (dd M)) (dn (dnl M) (dnc M)) else Throw.
+Definition m_getlin (M : dense) (i : Z) : res (list Z) :=
+  if inb i (dnl M) then lift (gather (dnc M) (Z.to_nat i) (dnl M) (dd M)) id else Throw.
+Definition m_setlin (M : dense) (i : Z) (v : list Z) : res dense :=
   if (length v =? dnc M)%nat && inb i (dnl M)
-  then Some {| dnl := dnl M; dnc := dnc M; dd := scatter (dnc M) (Z.to_nat i) (dnl M) v (dd M) |} else None.
+  then lift (scatter (dnc M) (Z.to_nat i) (dnl M) v (dd M)) (dn (dnl M) (dnc M)) else Throw.
 
 (* operator*: DGEMM(N,N,M,L,N, A,M, B,N, C,M) *)
-Definition m_mult (A B : dense) : option dense :=
+Definition m_mult (A B : dense) : res dense :=
   if (dnc A =? dnl B)%nat then
-    Some {| dnl := dnl A; dnc := dnc B;
-            dd := gemm false false (dnl A) (dnc B) (dnc A) (dd A) (dnl A) (dd B) (dnc A) (dnl A) |}
-  else None.
+    lift (gemm false false (dnl A) (dnc B) (dnc A) (dd A) (dnl A) (dd B) (dnc A) (dnl A) (dnl A * dnc B)) (dn (dnl A) (dnc B))
+  else Throw.
 (* tmult: DGEMM(T,N,N,L,M, A,M, B,M, C,N) *)
-Definition m_tmult (A B : dense) : option dense :=
+Definition m_tmult (A B : dense) : res dense :=
   if (dnl A =? dnl B)%nat then
-    Some {| dnl := dnc A; dnc := dnc B;
-            dd := gemm true false (dnc A) (dnc B) (dnl A) (dd A) (dnl A) (dd B) (dnl A) (dnc A) |}
-  else None.
+    lift (gemm true false (dnc A) (dnc B) (dnl A) (dd A) (dnl A) (dd B) (dnl A) (dnc A) (dnc A * dnc B)) (dn (dnc A) (dnc B))
+  else Throw.
 (* multt: DGEMM(N,T,M,L,N, A,M, B,L, C,M) *)
-Definition m_multt (A B : dense) : option dense :=
+Definition m_multt (A B : dense) : res dense :=
   if (dnc A =? dnc B)%nat then
-    Some {| dnl := dnl A; dnc := dnl B;
-            dd := gemm false true (dnl A) (dnl B) (dnc A) (dd A) (dnl A) (dd B) (dnl B) (dnl A) |}
-  else None.
+    lift (gemm false true (dnl A) (dnl B) (dnc A) (dd A) (dnl A) (dd B) (dnl B) (dnl A) (dnl A * dnl B)) (dn (dnl A) (dnl B))
+  else Throw.
 (* tmultt (as repaired): DGEMM(T,T,N,L,M, A,M, B,L, C,N) *)
-Definition m_tmultt (A B : dense) : option dense :=
+Definition m_tmultt (A B : dense) : res dense :=
   if (dnl A =? dnc B)%nat then
-    Some {| dnl := dnc A; dnc := dnl B;
-            dd := gemm true true (dnc A) (dnl B) (dnl A) (dd A) (dnl A) (dd B) (dnl B) (dnc A) |}
-  else None.
-(* the pinned call: DGEMM(T,T,L,N,M, A,M, B,N, C,L) — kept for the regression witness *)
-Definition m_tmultt_pinned (A B : dense) : option dense :=
+    lift (gemm true true (dnc A) (dnl B) (dnl A) (dd A) (dnl A) (dd B) (dnl B) (dnc A) (dnc A * dnl B)) (dn (dnc A) (dnl B))
+  else Throw.
+(* the pinned call: DGEMM(T,T,L,N,M, A,M, B,N, C,L) -- kept for the regression witness *)
+Definition m_tmultt_pinned (A B : dense) : res dense :=
   if (dnl A =? dnc B)%nat then
-    Some {| dnl := dnc A; dnc := dnl B;
-            dd := gemm true true (dnl B) (dnc A) (dnl A) (dd A) (dnl A) (dd B) (dnc A) (dnl B) |}
-  else None.
-(* Matrix(const SymMatrix&) *)
+    lift (gemm true true (dnl B) (dnc A) (dnl A) (dd A) (dnl A) (dd B) (dnc A) (dnl B) (dnc A * dnl B)) (dn (dnc A) (dnl B))
+  else Throw.
+(* Matrix(const SymMatrix&): asserted element loop *)
 Definition sym_to_dense (S : sym) : dense := mk (sn S) (sn S) (fun i j => sget S i j).
 (* Matrix * SymMatrix: D = Matrix(B); DSYMM(Right,Upper,m,n, D,n, this,m, C,m) *)
-Definition m_mult_sym (A : dense) (B : sym) : option dense :=
+Definition m_mult_sym (A : dense) (B : sym) : res dense :=
   if (dnc A =? sn B)%nat then
-    Some {| dnl := dnl A; dnc := sn B;
-            dd := symm false (dnl A) (sn B) (dd (sym_to_dense B)) (sn B) (dd A) (dnl A) (dnl A) |}
-  else None.
-Definition m_addsub (al : Z) (A B : dense) : option dense :=
+    lift (symm false (dnl A) (sn B) (dd (sym_to_dense B)) (sn B) (dd A) (dnl A) (dnl A) (dnl A * sn B)) (dn (dnl A) (sn B))
+  else Throw.
+Definition m_addsub (al : Z) (A B : dense) : res dense :=
   if ((dnl A =? dnl B) && (dnc A =? dnc B))%nat
-  then Some {| dnl := dnl A; dnc := dnc A; dd := axpy al (dd B) (dd A) |} else None.
-Definition m_scale (A : dense) (x : Z) : dense := {| dnl := dnl A; dnc := dnc A; dd := tab1 (length (dd A)) (fun k => nth k (dd A) 0 * x) |}.
-(* operator*(Vector): DGEMV(N,M,N,A,M,v) ; tmult(Vector): DGEMV(T,M,N,A,M,v) *)
-Definition m_mulv (A : dense) (v : list Z) : option (list Z) :=
-  if (dnc A =? length v)%nat then Some (gemv false (dnl A) (dnc A) (dd A) (dnl A) v) else None.
-Definition m_tmulv (A : dense) (v : list Z) : option (list Z) :=
-  if (dnl A =? length v)%nat then Some (gemv true (dnl A) (dnc A) (dd A) (dnl A) v) else None.
+  then lift (axpy (dnl A * dnc A) al (dd B) (dd A)) (dn (dnl A) (dnc A)) else Throw.
+Definition m_scale (A : dense) (x : Z) : res dense := lift (map_buf (dnl A * dnc A) (dd A) (fun e => e * x)) (dn (dnl A) (dnc A)).
+(* operator*(Vector): Vector res(nlin) (zero-initialised, as repaired); DGEMV(N,M,N,A,M,v) ; tmult(Vector): DGEMV(T,M,N,A,M,v) *)
+Definition m_mulv (A : dense) (v : list Z) : res (list Z) :=
+  if (dnc A =? length v)%nat then lift (gemv false (dnl A) (dnc A) (dd A) (dnl A) v (dnl A) (Some (repeat 0 (dnl A)))) id else Throw.
+Definition m_tmulv (A : dense) (v : list Z) : res (list Z) :=
+  if (dnl A =? length v)%nat then lift (gemv true (dnl A) (dnc A) (dd A) (dnl A) v (dnc A) (Some (repeat 0 (dnc A)))) id else Throw.
+(* pinned: the result vector is not initialised *)
+Definition m_mulv_pinned (A : dense) (v : list Z) : res (list Z) :=
+  if (dnc A =? length v)%nat then lift (gemv false (dnl A) (dnc A) (dd A) (dnl A) v (dnl A) None) id else Throw.
+Definition m_tmulv_pinned (A : dense) (v : list Z) : res (list Z) :=
+  if (dnl A =? length v)%nat then lift (gemv true (dnl A) (dnc A) (dd A) (dnl A) v (dnc A) None) id else Throw.
 Definition m_transpose (A : dense) : dense := mk (dnc A) (dnl A) (fun j i => dget A i j).
-Definition m_frob2 (A : dense) : Z := dotp (length (dd A)) (dd A) (dd A).
-Definition m_dot (A B : dense) : option Z :=
-  if ((dnl A =? dnl B) && (dnc A =? dnc B))%nat then Some (dotp (length (dd A)) (dd A) (dd B)) else None.
-Definition m_set (A : dense) (x : Z) : dense := {| dnl := dnl A; dnc := dnc A; dd := tab1 (length (dd A)) (fun _ => x) |}.
+Definition m_frob2 (A : dense) : res Z := lift (dotp (dnl A * dnc A) (dd A) (dd A)) id.
+Definition m_dot (A B : dense) : res Z :=
+  if ((dnl A =? dnl B) && (dnc A =? dnc B))%nat then lift (dotp (dnl A * dnc A) (dd A) (dd B)) id else Throw.
+Definition m_set (A : dense) (x : Z) : dense := dn (dnl A) (dnc A) (tab1 (dnl A * dnc A) (fun _ => x)).
 (* Matrix(const Vector&,M,N) *)
-Definition m_of_vec (v : list Z) (m n : nat) : option dense :=
-  if (m * n =? length v)%nat then Some {| dnl := m; dnc := n; dd := v |} else None.
+Definition m_of_vec (v : list Z) (m n : nat) : res dense :=
+  if (m * n =? length v)%nat then Ok (dn m n v) else Throw.
 (* Vector * Matrix = m.transpose()*this *)
-Definition v_mulm (v : list Z) (M : dense) : option (list Z) :=
-  if (length v =? dnl M)%nat then m_mulv (m_transpose M) v else None.
+Definition v_mulm (v : list Z) (M : dense) : res (list Z) :=
+  if (length v =? dnl M)%nat then m_mulv (m_transpose M) v else Throw.
 
 (* ---- SymMatrix ---- *)
-Definition s_get (S : sym) (i j : Z) : option Z :=
-  if inb i (sn S) && inb j (sn S) then Some (sget S (Z.to_nat i) (Z.to_nat j)) else None.
-Definition s_put (S : sym) (i j : Z) (v : Z) : option sym :=
-  if inb i (sn S) && inb j (sn S) then Some {| sn := sn S; sd := upd (sd S) (pidx (Z.to_nat i) (Z.to_nat j)) v |} else None.
-Definition s_getlin (S : sym) (i : Z) : option (list Z) :=
-  if inb i (sn S) then Some (tab1 (sn S) (fun j => sget S (Z.to_nat i) j)) else None.
-Definition s_setlin (S : sym) (i : Z) (v : list Z) : option sym :=
+Definition s_get (S : sym) (i j : Z) : res Z :=
+  if inb i (sn S) && inb j (sn S) then lift (rd (sd S) (pidx (Z.to_nat i) (Z.to_nat j))) id else Throw.
+Definition s_put (S : sym) (i j : Z) (v : Z) : res sym :=
+  if inb i (sn S) && inb j (sn S)
+  then (if (pidx (Z.to_nat i) (Z.to_nat j) <? length (sd S))%nat
+        then Ok {| sn := sn S; sd := upd (sd S) (pidx (Z.to_nat i) (Z.to_nat j)) v |} else Undef)
+  else Throw.
+Definition s_getlin (S : sym) (i : Z) : res (list Z) :=
+  if inb i (sn S) then lift (otab (sn S) (fun j => rd (sd S) (pidx (Z.to_nat i) j))) id else Throw.
+Definition s_setlin (S : sym) (i : Z) (v : list Z) : res sym :=
   if (length v =? sn S)%nat && inb i (sn S)
-  then Some {| sn := sn S; sd := fold_left (fun b j => upd b (pidx (Z.to_nat i) j) (nth j v 0)) (seq 0 (sn S)) (sd S) |} else None.
+  then lift (fold_left (fun ob j => match ob, rd v j with
+                                    | Some b, Some e => if (pidx (Z.to_nat i) j <? length b)%nat then Some (upd b (pidx (Z.to_nat i) j) e) else None
+                                    | _, _ => None end) (seq 0 (sn S)) (Some (sd S)))
+            (fun l => {| sn := sn S; sd := l |})
+  else Throw.
 (* operator()(i_start,i_end,j_start,j_end): sizes and loop bounds are unsigned differences; every element access
    is asserted; the loops run at least once.  All accesses are in range exactly when
    i_start<=i_end<n and j_start<=j_end<n (otherwise the wrapped bound walks out of the matrix). *)
-Definition s_block (S : sym) (is ie js je : Z) : option dense :=
+Definition s_block (S : sym) (is ie js je : Z) : res dense :=
   if (0 <=? is) && (is <=? ie) && (ie <? Z.of_nat (sn S)) && (0 <=? js) && (js <=? je) && (je <? Z.of_nat (sn S))
-  then Some (mk (Z.to_nat (ie - is + 1)) (Z.to_nat (je - js + 1)) (fun i j => sget S (Z.to_nat is + i) (Z.to_nat js + j)))
-  else None.
+  then let ni := Z.to_nat (ie - is + 1) in let nj := Z.to_nat (je - js + 1) in
+       lift (otab (ni * nj) (fun p => rd (sd S) (pidx (Z.to_nat is + p mod ni) (Z.to_nat js + p / ni)))) (dn ni nj)
+  else Throw.
 (* submat(istart,isize,jstart,jsize) = this(istart,istart+isize-1,...): a zero size wraps to an empty
    result whose first (unconditional) element write throws *)
-Definition s_submat4 (S : sym) (istart isize jstart jsize : Z) : option dense :=
+Definition s_submat4 (S : sym) (istart isize jstart jsize : Z) : res dense :=
   if (0 <=? istart) && (0 <? isize) && (0 <=? jstart) && (0 <? jsize)
      && (istart + isize <=? Z.of_nat (sn S)) && (jstart + jsize <=? Z.of_nat (sn S))
-  then s_block S istart (istart + isize - 1) jstart (jstart + jsize - 1) else None.
-(* submat(istart,iend) (as repaired: local indices in the result); asserts iend>istart *)
-Definition s_submat2 (S : sym) (istart iend : Z) : option sym :=
+  then s_block S istart (istart + isize - 1) jstart (jstart + jsize - 1) else Throw.
+(* submat(istart,iend) (as repaired: block-local indices in the result, iend checked against the dimension);
+   asserts iend>istart *)
+Definition s_submat2 (S : sym) (istart iend : Z) : res sym :=
   if (0 <=? istart) && (istart <? iend) && (iend <? Z.of_nat (sn S))
   then let isize := Z.to_nat (iend - istart + 1) in
-       Some {| sn := isize; sd := map (fun p => sget S (Z.to_nat istart + fst p) (Z.to_nat istart + snd p))
-                                     (flat_map (fun j => map (fun i => (i, j)) (seq 0 (j + 1))) (seq 0 isize)) |}
-  else None.
-Definition s_addsub (al : Z) (A B : sym) : option sym :=
-  if (sn A =? sn B)%nat then Some {| sn := sn A; sd := axpy al (sd B) (sd A) |} else None.
-Definition s_scale (A : sym) (x : Z) : sym := {| sn := sn A; sd := tab1 (length (sd A)) (fun k => nth k (sd A) 0 * x) |}.
+       lift (oseq (map (fun p => rd (sd S) (pidx (Z.to_nat istart + fst p) (Z.to_nat istart + snd p))) (packed_pairs isize)))
+            (fun l => {| sn := isize; sd := l |})
+  else Throw.
+(* the pinned loop: mat(i,j) = this(i,j) with the GLOBAL indices i,j in [istart,iend] written into the
+   (iend-istart+1)-sized result through its asserted accessor *)
+Definition s_submat2_pinned (S : sym) (istart iend : Z) : res sym :=
+  if (0 <=? istart) && (istart <? iend) && (iend <? Z.of_nat (sn S))
+  then let isize := Z.to_nat (iend - istart + 1) in
+       let mat0 : sym := {| sn := isize; sd := repeat 0 (isize * (isize + 1) / 2) |} in
+       fold_left (fun (acc : res sym) p =>
+                    match acc with
+                    | Ok mat => match s_get S (Z.of_nat (fst p)) (Z.of_nat (snd p)) with
+                                | Ok e => s_put mat (Z.of_nat (fst p)) (Z.of_nat (snd p)) e
+                                | Throw => Throw | Undef => Undef end
+                    | r => r end)
+                 (flat_map (fun i => map (fun j => (i, j)) (seq i (Z.to_nat iend + 1 - i))) (seq (Z.to_nat istart) isize))
+                 (Ok mat0)
+  else Throw.
+Definition s_addsub (al : Z) (A B : sym) : res sym :=
+  if (sn A =? sn B)%nat then lift (axpy (sn A * (sn A + 1) / 2) al (sd B) (sd A)) (fun l => {| sn := sn A; sd := l |}) else Throw.
+Definition s_scale (A : sym) (x : Z) : res sym :=
+  lift (map_buf (sn A * (sn A + 1) / 2) (sd A) (fun e => e * x)) (fun l => {| sn := sn A; sd := l |}).
 (* sym*sym: D=Matrix(this), B=Matrix(m); DSYMM(Left,Upper,M,M,D,M,B,M,C,M) *)
-Definition s_mult_sym (A B : sym) : option dense :=
+Definition s_mult_sym (A B : sym) : res dense :=
   if (sn A =? sn B)%nat then
-    Some {| dnl := sn A; dnc := sn A;
-            dd := symm true (sn A) (sn A) (dd (sym_to_dense A)) (sn A) (dd (sym_to_dense B)) (sn A) (sn A) |}
-  else None.
+    lift (symm true (sn A) (sn A) (dd (sym_to_dense A)) (sn A) (dd (sym_to_dense B)) (sn A) (sn A) (sn A * sn A)) (dn (sn A) (sn A))
+  else Throw.
 (* sym*Matrix: DSYMM(Left,Upper,M,N,D,M,B,M,C,M) *)
-Definition s_mult (A : sym) (B : dense) : option dense :=
+Definition s_mult (A : sym) (B : dense) : res dense :=
   if (sn A =? dnl B)%nat then
-    Some {| dnl := sn A; dnc := dnc B;
-            dd := symm true (sn A) (dnc B) (dd (sym_to_dense A)) (sn A) (dd B) (sn A) (sn A) |}
-  else None.
-Definition s_mulv (A : sym) (v : list Z) : option (list Z) :=
-  if (sn A =? length v)%nat then Some (spmv (sn A) (sd A) v) else None.
+    lift (symm true (sn A) (dnc B) (dd (sym_to_dense A)) (sn A) (dd B) (sn A) (sn A) (sn A * dnc B)) (dn (sn A) (dnc B))
+  else Throw.
+Definition s_mulv (A : sym) (v : list Z) : res (list Z) :=
+  if (sn A =? length v)%nat then lift (spmv (sn A) (sd A) v) id else Throw.
 (* SymMatrix(const Matrix&): sized by M.nlin(); reads M(i,j) for i<=j<nlin (asserts j<M.ncol()) *)
-Definition s_of_dense (M : dense) : option sym :=
+Definition s_of_dense (M : dense) : res sym :=
   if ((dnl M <=? dnc M) || (dnl M =? 0))%nat
-  then Some {| sn := dnl M; sd := map (fun p => dget M (fst p) (snd p))
-                                    (flat_map (fun j => map (fun i => (i, j)) (seq 0 (j + 1))) (seq 0 (dnl M))) |}
-  else None.
+  then lift (oseq (map (fun p => rd (dd M) (didx M (fst p) (snd p))) (packed_pairs (dnl M)))) (fun l => {| sn := dnl M; sd := l |})
+  else Throw.
+
+(* ---- SymMatrix::det(): scan of the Bunch-Kaufman pivot array returned by DSPTRF('U') ----
+   piv : the pivot array (1-based, negative pairs mark 2x2 blocks); g i j : entry (i,j) of the factored matrix,
+   None when the asserted accessor would throw (index >= n).  Returns (determinant, complaints) or None. *)
+Fixpoint det_scan (fuel : nat) (n i : nat) (piv : list Z) (g : nat -> nat -> option Z) (d : Z) (complaints : nat) : option (Z * nat) :=
+  match fuel with
+  | O => Some (d, complaints)
+  | S fuel' =>
+    if (n <=? i)%nat then Some (d, complaints) else
+    match nth_error piv i with
+    | None => None                      (* read past the pivot array *)
+    | Some p =>
+      if (0 <=? p) then match g i i with Some e => det_scan fuel' n (i + 1)%nat piv g (d * e) complaints | None => None end
+      else if (i + 1 <? n)%nat then
+        match nth_error piv (i + 1)%nat with
+        | None => None
+        | Some q => if (p =? q) then
+                      match g i i, g (i + 1)%nat (i + 1)%nat, g i (i + 1)%nat, g (i + 1)%nat i with
+                      | Some a, Some b, Some c, Some c' => det_scan fuel' n (i + 2)%nat piv g (d * (a * b - c * c')) complaints
+                      | _, _, _, _ => None end
+                    else det_scan fuel' n (i + 1)%nat piv g d (complaints + 1)%nat
+        end
+      else det_scan fuel' n (i + 1)%nat piv g d (complaints + 1)%nat
+    end
+  end.
